@@ -397,6 +397,7 @@ def impl_request(c, st, sc, grid, f, req, watch, k):
     else:
         scheme, err, result = sc.perform_operation(st['lmin'], st['lmax'])
     total_points = int(sc.get_total_num_points())
+    total_naive = int(sc.get_total_num_points(distinct_function_evals=False))
     sch = [[[int(x) for x in g.levelvector], _f(g.coefficient)] for g in scheme]
     integral = [_f(x) for x in np.atleast_1d(result)]
     pts = [tuple(float(x) for x in p) for p in st['pts']]
@@ -482,7 +483,7 @@ def impl_request(c, st, sc, grid, f, req, watch, k):
         coords = watch.add('grid coordinates of step %d' % k, [[p[q] for p in pts[:m]] for q in range(d)])
         gv = keep(sc.interpolate_grid(coords))
         pv = sc(list(itertools.product(*coords)))
-        gridvals = [[[_f(y) for y in x] for x in gv], [[_f(y) for y in x] for x in pv]]
+        gridvals = [[[_f(y) for y in x] for x in gv], [[_f(y) for y in x] for x in pv], d if d > 3 else 0]
     pw_pts, pw_w = sc.get_points_and_weights()
     keep(pw_pts); keep(pw_w)
     pw_len = [len(pw_pts), len(pw_w)]
@@ -528,7 +529,7 @@ def impl_request(c, st, sc, grid, f, req, watch, k):
     if [[[int(x) for x in g.levelvector], _f(g.coefficient)] for g in sc.scheme] != sch:
         alias.append('scheme after the returned arrays were overwritten')
     return dict(scheme=sch, comps=comps, vals=vals, integral=integral, nodal=nodal, nodal_all=nodal_all,
-                gridvals=gridvals, pw_integral=pw_int, pw_abs=pw_abs, pw_len=pw_len, pw=pw, total_points=total_points, selfcheck=selfcheck, attrs=attrs,
+                gridvals=gridvals, pw_integral=pw_int, pw_abs=pw_abs, pw_len=pw_len, pw=pw, total_points=total_points, total_naive=total_naive, selfcheck=selfcheck, attrs=attrs,
                 err=None if err is None else _f(err), extra=extra, vals_fresh=vals_fresh, alias=alias, overwritten=overwritten, observers=observers)
 
 
@@ -618,6 +619,9 @@ def oracle(c, st, r):
     if set(coef) != want:
         return 'union', 'union of the component-grid points (%d points) is not the sparse grid of the requested lmin=%d lmax=%d (%d points)' % (
             len(coef), st['lmin'], st['lmax'], len(want))
+    if r.get('total_naive') is not None and r['total_naive'] != sum(len(comp[2]) for comp in r['comps']):
+        return 'total-points', 'get_total_num_points(distinct_function_evals=False) reports %d, the component grids return %d points in total' % (
+            r['total_naive'], sum(len(comp[2]) for comp in r['comps']))
     if r['total_points'] != len(coef):
         return 'total-points', 'get_total_num_points reports %d, the component grids hold %d distinct points' % (r['total_points'], len(coef))
     if r['selfcheck']:
@@ -631,7 +635,7 @@ def oracle(c, st, r):
         return 'object-reuse', 'the interpolated values for the points object handed over (%s%s) differ from those for an equal fresh copy: %r vs %r' % (
             st.get('pts_form'), ', same object as in the previous request' if st.get('pts_same') else '', r['vals'][:3], r['vals_fresh'][:3])
     if r['gridvals'] and (len(r['gridvals'][0]) != len(r['gridvals'][1]) or any(
-            not closef(x, y, scale=S) for xs, ys in zip(*r['gridvals']) for x, y in zip(xs, ys))):
+            not closef(x, y, scale=S) for xs, ys in zip(r['gridvals'][0], r['gridvals'][1]) for x, y in zip(xs, ys))):
         return 'gridvals', 'interpolate_grid differs from point-wise interpolation'
     # the point/weight list of the whole combination carries the combined quadrature
     if r['pw_len'][0] != r['pw_len'][1]:
@@ -686,7 +690,7 @@ def compare(c, st, r, m):
     """model vs implementation; returns list of differing observables"""
     diffs = []
     S = fscale(c)
-    flag, msch, mcomps, mvals, mints, mtotal, mpw = m
+    flag, msch, mcomps, mvals, mints, mtotal, mpw, mnaive = m
     if sorted([[lv, float(cf)] for lv, cf in msch]) != sorted(r['scheme']):
         return ['scheme']
     order = {tuple(lv): k for k, (lv, cf) in enumerate(msch)}
@@ -711,6 +715,8 @@ def compare(c, st, r, m):
         diffs.append('integral')
     if mtotal != r['total_points']:
         diffs.append('total number of points')
+    if mnaive != r['total_naive']:
+        diffs.append('total number of points with doubles')
     if st['want_pw'] and r['pw'] is not None:
         mm = sorted((tuple(qf(x) for x in p), qf(w)) for p, w in mpw)
         ii = sorted((p, w) for p, w in r['pw'])
@@ -832,6 +838,19 @@ def run(chk):
         out = run_model(2, reqs, nproc=4)
         for j, key in enumerate(tolreq):
             tolres[key] = (out[2 * j], out[2 * j + 1])
+    # interpolate_grid against the code-shaped matrix accumulation of Model/StdCombiVec.v (rows in itertools.product order)
+    gridreq = [(ci, k) for ci, k in flat if impl[ci][0] == 'ok' and impl[ci][1][k].get('gridvals')]
+    gridres = {}
+    if gridreq:
+        reqs = []
+        for ci, k in gridreq:
+            c, st = cases[ci], cases[ci]['steps'][k]
+            o = c['objs'][st['obj']]
+            mm = 6 if c['d'] <= 3 else 3
+            coords = [[p[q] for p in st['pts'][:mm]] for q in range(c['d'])]
+            reqs.append((4, [1 if o['boundary'] else 0, o['a'], o['b'], st['lmin'], st['lmax'], c['fss'], coords]))
+        for key, mr in zip(gridreq, run_model(2, reqs, nproc=8)):
+            gridres[key] = mr
     t3 = time.time()
     keys, samples = [], []
     search = []
@@ -916,6 +935,14 @@ def run(chk):
             chk.count('boundary test observed on rtol_collision steps: ' + variant)
             if variant == 'neither':
                 diffs.append('interpolated values (neither the np.isclose model nor the domain-relative model of the boundary test)')
+        if (ci, k) in gridres:
+            mg = gridres[(ci, k)]
+            chk.count('interpolate_grid compared with the model (rows in cross-product order)')
+            gv = r['gridvals'][0]
+            if sx.is_err(mg) or isinstance(mg, tuple) or len(mg) != len(gv) or any(
+                    len(mrow) != len(row) or any(not close(qf(x) * fscale(full), y, fscale(full)) for x, y in zip(mrow, row))
+                    for mrow, row in zip(mg, gv)):
+                diffs.append('interpolate_grid (matrix in cross-product order)')
         if r.get('extra'):
             mas = [areq.get((o['boundary'], o['a'][dim], o['b'][dim], lev)) for dim, lev in enumerate(st['extra_lv'])]
             if any(ma is None or sx.is_err(ma) or isinstance(ma, tuple) for ma in mas):
